@@ -164,7 +164,18 @@ class DocGen:
                 else:
                     self.decl("f%d" % n, "int f%d;" % n, indent, can_trail=True)
             elif r < 0.55:
-                self.decl("m%d" % n, "void m%d();" % n, indent)
+                # methods in every ending a statement can have (what ends the statement decides where the next declaration's
+                # comments are looked for): a declaration, a body, `= 0` / `= default`, a trailing return type, an overloaded
+                # operator, a conversion operator with and without a body
+                form = rng.choice(["decl", "decl", "body", "const_body", "pure", "trailing", "trailing_body", "op", "op_body", "conv", "conv_body"])
+                if form in ("conv", "conv_body") and "operator" not in self.expect:
+                    self.decl("operator", "operator bool() const%s" % (";" if form == "conv" else " { return true; }"), indent)
+                elif form in ("op", "op_body") and ("operator==" not in self.expect):
+                    self.decl("operator==", "bool operator==(int o) const%s" % (";" if form == "op" else " { return o == 1; }"), indent)
+                else:
+                    text = {"decl": "void m%d();", "body": "void m%d() { int q = 0; }", "const_body": "int m%d() const { return 0; }",
+                            "pure": "virtual void m%d() = 0;", "trailing": "auto m%d() -> int;", "trailing_body": "auto m%d() const -> int { return 1; }"}
+                    self.decl("m%d" % n, text.get(form, "void m%d();") % n, indent)
             elif r < 0.65:
                 self.decl("ua%d" % n, "using ua%d = int;" % n, indent)
             elif r < 0.75:
@@ -246,7 +257,8 @@ class DocGen:
                     self.decl("v%d" % n, "int v%d;" % n, indent, can_trail=True)
             elif r < 0.3:
                 kp = rng.choice([None, None, "[[deprecated]]", "template <typename T>", "__attribute__((unused))", "alignas(8)"])
-                self.decl("fn%d" % n, "void fn%d(int a);" % n, indent, keep_prefix=kp)
+                body = rng.choice(["(int a);", "(int a);", "(int a) { return; }", "(int a) noexcept;", "(int a) = delete;"])
+                self.decl("fn%d" % n, "void fn%d%s" % (n, body), indent, keep_prefix=kp)
             elif r < 0.38:
                 self.decl("ua%d" % n, "using ua%d = int;" % n, indent)
             elif r < 0.44:
